@@ -57,7 +57,9 @@ func (p *Parser) expect(tok *Token) error {
 	if p.tok == nil {
 		return NewSyntaxError(-1, "Expect token %s but got EOF", tok.Data)
 	}
-	if p.tok.Tp != tok.Tp {
+	// Every operator and operator word is an OPERATOR token: for them the
+	// text has to match too (BETWEEN wants `and`, not any operator)
+	if p.tok.Tp != tok.Tp || (tok.Tp == OPERATOR && p.tok.Data != tok.Data) {
 		return NewSyntaxError(p.tok.Pos, "Expect token %s bug got %s", tok.Data, p.tok.Data)
 	}
 	p.next()
@@ -247,8 +249,14 @@ func (p *Parser) parseList(pos int) (Expression, error) {
 			return nil, err
 		}
 		list = append(list, arg)
-		if p.tok != nil && p.tok.Tp == RPAREN {
-			break
+		if p.tok != nil {
+			if p.tok.Tp == RPAREN {
+				break
+			} else if p.tok.Tp == SEP && p.tok.Data == "," {
+				// Correct do nothing
+			} else {
+				return nil, NewSyntaxError(p.tok.Pos, "List item expect `,` or `)` but got %s", p.tok.Data)
+			}
 		}
 		p.next()
 	}
